@@ -676,10 +676,15 @@ def enc_equal(a, b):
   """Exact equality of two marshal-able structures: types must match exactly (bool/int/float/str/
   bytes/list/tuple/dict/None), NaN equals NaN, 0.0 and -0.0 are not distinguished."""
   stack = [(a, b)]
+  seen = set()
   while stack:
     x, y = stack.pop()
     if type(x) is not type(y):
       return False
+    if isinstance(x, (list, tuple, dict)):
+      if (id(x), id(y)) in seen:     # cyclic / shared structure (only possible for corrupted encodings)
+        continue
+      seen.add((id(x), id(y)))
     if isinstance(x, float):
       if not (x == y or (x != x and y != y)):
         return False
